@@ -369,7 +369,9 @@ class HTMLSerializer(object):
                 if key not in entities:
                     self.serializeError("Entity %s not recognized" % name)
                 if self.resolve_entities and key not in xmlEntities:
-                    data = entities[key]
+                    # the expansion is character data like any other: AMP, LT,
+                    # nvlt... expand to text containing "&" or "<"
+                    data = escape(entities[key])
                 else:
                     data = "&%s;" % name
                 yield self.encodeStrict(data)
